@@ -40,7 +40,7 @@ def run(oc, tier, seed, model_available, escalate):
 
     # ---- field multiplication: whole tables of both fields against reedsolo.gf_mul (finite, enumerated completely)
     for prim, gen in ((0x11b, 3), (0x187, 2)):
-        with common.captured():
+        with common.quiet():
             em.reedsolo.init_tables(prim=prim, generator=gen)
         rows = range(256) if tier == "thorough" else sorted(set([0, 1, 2, 3, 255] + [rng.randrange(256) for _ in range(24)]))
         for a in rows:
@@ -58,7 +58,7 @@ def run(oc, tier, seed, model_available, escalate):
         msg = cu.gen_message(rng, k)
         kw = {"k": k} if percall else {}
         karg = k if percall else 0
-        with common.captured():
+        with common.quiet():
             par = bytes(man.encode(msg, **kw))
             ok0 = bool(man.check(bytearray(msg), bytearray(par), **kw))
         oc.oracle_cases += 1
@@ -78,7 +78,7 @@ def run(oc, tier, seed, model_available, escalate):
         pos = rng.sample(pool, w)
         cw = cu.corrupt(rng, word, pos)
         m2, p2 = bytes(cw[:len(msg)]), bytes(cw[len(msg):])
-        with common.captured():
+        with common.quiet():
             ok1 = bool(man.check(bytearray(m2), bytearray(p2), **kw))
         add("chk %d %d %d %d %s %s" % (algo, n, k0, karg, hx(m2), hx(p2)), "1" if ok1 else "0")
         if ok1:
@@ -86,7 +86,7 @@ def run(oc, tier, seed, model_available, escalate):
         # truncated parity
         j = rng.randint(1, n - k)
         pt = par[:len(par) - j]
-        with common.captured():
+        with common.quiet():
             ok2 = bool(man.check(bytearray(msg), bytearray(pt), **kw))
         add("chk %d %d %d %d %s %s" % (algo, n, k0, karg, hx(msg), hx(pt)), "1" if ok2 else "0")
         if ok2 != all(b == 0 for b in par[len(par) - j:]):
@@ -100,6 +100,45 @@ def run(oc, tier, seed, model_available, escalate):
         oc.distinct.add(lines[-2])
         if i % max(1, n_cases // 4) == 0:
             oc.sample({"request": lines[-2][:200], "impl_reply": impl[-2]})
+    # ---- directed: parities that END with a null symbol (a cut that must be accepted) and parities that BEGIN with one
+    #      (dropping the first symbol shifts the parity: must be rejected unless the shifted word is the same codeword)
+    nd = 0
+    for algo in (1, 2, 3, 4):
+        for (n, k) in ((12, 8), (20, 11), (7, 5)) if tier == "quick" else ((12, 8), (20, 11), (7, 5), (30, 20), (6, 2)):
+            man = cu.manager(algo, n, k)
+            finder = cu.manager(3 if algo in (1, 2, 3) else 4, n, k)   # fast search codec (parity of 1-3 is cross-checked by C12 and below)
+            found_end = found_begin = False
+            for _try in range(3000):
+                if found_end and found_begin:
+                    break
+                msg = bytes(rng.randrange(256) for _ in range(rng.choice([k, k, max(1, k - 2)])))
+                with common.quiet():
+                    par = bytes(finder.encode(msg))
+                if not ((par[-1] == 0 and not found_end) or (par[0] == 0 and not found_begin)):
+                    continue
+                cu.manager(algo, n, k)
+                with common.quiet():
+                    par = bytes(man.encode(msg))
+                cases = []
+                if par[-1] == 0 and not found_end:
+                    found_end = True
+                    cut = len(par) - len(par.rstrip(b"\0"))
+                    cases.append((par[:len(par) - cut], True, "parity ending in %d null symbol(s), cut off" % cut))
+                if par[0] == 0 and par[1:] + b"\0" != par and not found_begin:
+                    found_begin = True
+                    cases.append((par[1:], False, "parity beginning with a null symbol, first symbol dropped"))
+                for pt, want, desc in cases:
+                    with common.quiet():
+                        ok = bool(man.check(bytearray(msg), bytearray(pt)))
+                    oc.oracle_cases += 1
+                    nd += 1
+                    add("chk %d %d %d 0 %s %s" % (algo, n, k, hx(msg), hx(pt)), "1" if ok else "0")
+                    oc.distinct.add(lines[-1])
+                    if ok != want:
+                        oc.violations.append({"input": {"algo": algo, "n": n, "k_ctor": k, "k_call": None, "msg": msg.hex(),
+                                                        "corrupted": (msg + pt).hex(), "positions": []},
+                                              "impl": {"parity": par.hex(), "check": ok}, "what": "%s: check returned %s, required %s" % (desc, ok, want)})
+    oc.count("directed truncated/shifted parity cases", nd)
     if tier == "thorough":
         # exhaustive single and double symbol errors on small codes
         cnt = 0
@@ -107,7 +146,7 @@ def run(oc, tier, seed, model_available, escalate):
             for (n, k) in ((4, 2), (7, 3), (10, 7), (12, 6), (12, 11), (5, 1)):
                 man = cu.manager(algo, n, k)
                 msg = bytes(rng.randrange(256) for _ in range(k))
-                with common.captured():
+                with common.quiet():
                     par = bytes(man.encode(msg))
                 word = msg + par
                 for wt in (1, 2):
@@ -118,7 +157,7 @@ def run(oc, tier, seed, model_available, escalate):
                             cw = bytearray(word)
                             for p, dlt in zip(pos, delta):
                                 cw[p] ^= dlt
-                            with common.captured():
+                            with common.quiet():
                                 ok = bool(man.check(bytearray(cw[:k]), bytearray(cw[k:])))
                             cnt += 1
                             oc.oracle_cases += 1
@@ -151,7 +190,7 @@ def replay(payload):
     man = cu.manager(inp["algo"], inp["n"], inp["k_ctor"])
     kw = {"k": inp["k_call"]} if inp.get("k_call") else {}
     msg = bytes.fromhex(inp["msg"])
-    with common.captured():
+    with common.quiet():
         par = bytes(man.encode(msg, **kw))
         ok0 = bool(man.check(bytearray(msg), bytearray(par), **kw))
         cw = bytes.fromhex(inp["corrupted"])
